@@ -159,6 +159,10 @@ class Kernel:
             # a tuple of values (the state of a fold carried as a tuple): component-wise terms
             return ("tuple",) + tuple(T(x) for x in e[3])
         if op == "cast":
+            # a cast to a narrow integer type keeps only the low bits: it is not the identity on the quantities the formulas
+            # range over (element counts up to usize::MAX) – `len as u32` is a different function than `len`
+            if len(e) > 3 and str(e[1]).startswith("IntToInt") and str(e[3]) in ("u8", "u16", "u32", "i8", "i16", "i32"):
+                return ("fn", "as_%s" % e[3], T(e[2]))
             return T(e[2])
         raise Unrecognised("expression `%s`" % fmt(e)[:100])
 
